@@ -8,14 +8,14 @@ import re
 V = '/verif'
 STATUS = [
  # id, theorems (what is proved for all inputs), tie, what is NOT a theorem
- ('C01', 'LUTs = primitive functions; both 2-valued dispatch copies = LUT per lane; primitive selection; opcode injectivity; lane lifting; **build_ops_solution** (for every wf, comb.-acyclic netlist and stimulus the op list SimOps builds, executed gate by gate in any value domain, satisfies every node\'s equation), solution_unique, logic2_gate_by_gate (gate outputs = prim_fn of pin values); map_check_sound (C08) for the flat memory; [end_to_end for default options if Proofs/EndToEnd.v is integrated]', 'T (SimTables, LogicSimDispatch) + C (SimOps.build, LogicSim s_to_c/c_prop/c_to_s/cycle: ops, levels, c_locs, s[0], s[1] after k cycles) + per-case evaluation of solution_b, certificates, wf_netlist_b/acyclic_b', 'k-cycle iteration (correspondence/oracle); build() passes map_check for c_reuse / strip_forks'),
+ ('C01', 'LUTs = primitive functions; both 2-valued dispatch copies = LUT per lane; primitive selection; opcode injectivity; lane lifting; **build_ops_solution** (for every wf, comb.-acyclic netlist and stimulus the op list SimOps builds, executed gate by gate in any value domain, satisfies every node\'s equation), solution_unique, logic2_gate_by_gate (gate outputs = prim_fn of pin values); **end_to_end_default** (default options: build() total; flat memory after the scheduled ops = the unique gate-by-gate solution at every observed slot, Proofs/EndToEnd.v); map_check_sound (C08) for the flat memory under c_reuse / strip_forks', 'T (SimTables, LogicSimDispatch) + C (SimOps.build, LogicSim s_to_c/c_prop/c_to_s/cycle: ops, levels, c_locs, s[0], s[1] after k cycles) + per-case evaluation of solution_b, certificates, wf_netlist_b/acyclic_b', 'k-cycle iteration (correspondence/oracle); build() passes map_check for c_reuse / strip_forks'),
  ('C02', '4-/8-valued dispatch (plain and callback) = documented operator composition on all 8^4/4^4 tuples; X-soundness, init/final projection, Boolean restriction per primitive and for every op list and stimulus (logical relation)', 'T + C (LogicSim m=4/8 end to end)', 'as C01 for the memory map'),
  ('C03', 'per gate evaluation (any LUT/operands/delays>=0/capacity>=4): termination, final value by parity (also under overflow), initial value, well-formedness; **circuit level**: for any op list every signal starts/ends at the Boolean evaluation of initial/final values', 'C (whole waveform memory, abuf, s[3..10] per lane)', 'flat waveform memory with regions (correspondence + certificate); float rounding off the integer grid'),
  ('C04', 'per gate: emit-is-sum, shift and scale equivariance (any k>0), strict monotonicity for polarity-free delays; **circuit level**: STA window over any op list', 'C + STA/shift/scale/monotonicity/emit-sum oracle + single-gate stress', 'circuit-level shift/scale (reruns)'),
  ('C05', 'hazard soundness of the 8-valued algebra per primitive; no_change_no_edge per gate; **circuit level**: logic8_predicts_wave for any op list', 'T + C (both simulators) + small-circuit stress', 'memory level as C03'),
  ('C06', 'strip_forks_irrelevant (every wf acyclic netlist, any value domain: stripped schedule = unstripped at every line); mock-GPU launch covers each in-range thread exactly once; lane independence; release order irrelevant', 'differential execution over all option/lane/code-path pairs incl. repeated propagation and dataset modes; known finding D26', 'c_reuse invariance and dataset selection as theorems; strip_forks for waveforms (false in general: D26)'),
  ('C07', 'levels_valid (greedy levelisation of every SSA-topological op list is an independent partition); build_ops_ssa + **build_levels_valid** (unconditional for every wf acyclic netlist, no fork stripping); perm_level_sound (any order inside levels, same signals); threads once', 'C (SimOps) + certificates per case + permuted-schedule / permuted-thread execution', 'sub-kernel interleavings; SSA form with strip_forks (certificate per case)'),
- ('C08', 'allocator: invariant for all histories, alloc_fresh, free_live, live_disjoint, high_water, free_commute; map: map_check_sound', 'C (Heap after every step; SimOps) + certificates per case + liveness oracle', 'build() always passes map_check with c_reuse'),
+ ('C08', 'allocator: invariant for all histories, alloc_fresh, free_live, live_disjoint, high_water, free_commute; map: map_check_sound, **build_passes_certificate** (c_reuse off, all wf netlists of known primitives; side condition proved necessary)', 'C (Heap after every step; SimOps) + certificates per case + liveness oracle', 'build() always passes map_check with c_reuse'),
  ('C09', 'CInv for the empty circuit and preserved by every primitive edit, SetIO, GetOrAddFork, RemoveDangling, Eliminate1to1, Copy, PickleRoundTrip; lifted to all histories; io entries stay live; canon(copy)=canon; stats; cinv_b sound; refutation of the pre-fix substitute', 'C (full canonical state after every step of random/wild/instance histories) + independent invariant oracle with shrinking', 'Substitute / ResolveTlib preserve CInv (modelled, cinv_b evaluated per step)'),
  ('C10', '[bridge CInv -> wf_netlist and copy/pickle view preservation if Proofs/CircuitViewProofs.v is integrated]', 'differential truth tables / s_nodes order; all library cell definitions; known findings D15, D21, D22', 'semantic theorem for substitute / resolve'),
  ('C11', 'range/part-select names, sized constants (length, value, MSB first), concat = flat_map, port positions / io order, bench wiring', 'C (transformer helpers, bench elaboration) + generator-owned netlists in both formats', 'grammars; Verilog module passes 1-2; full verilog_sem'),
